@@ -395,6 +395,7 @@ func accessors(c *Ctx, rule string) {
 func ruleC20(c *Ctx) {
 	c.rule("C20-R1", "sibling tags: every field of UnverifiedBaseResponse has a same-named field in Response with identical parsed xml tag and Go type; the two XMLName tags are equal")
 	c.rule("C20-R2", "the logout pre-decoder fills the same named type (types.LogoutResponse) that full validation fills")
+	c.rule("C20-R6", "same normal form: the pre-decoders feed encoding/xml the etree re-serialisation of the parsed message, like every validated decode, not the raw octets (necessary for agreement on character references, repeated attributes and encoding declarations; it does not by itself establish agreement on attribute order under canonicalisation)")
 	c.rule("C20-R3", "both pre-decoders: base64.StdEncoding -> maybeDeflate(raw, 5 MiB, decoder) -> xml.Unmarshal(bytes given to the decoder) into an object allocated inside that attempt; the object returned is the one of the successful attempt")
 	_, ub := structOf(c, "types.UnverifiedBaseResponse")
 	_, rs := structOf(c, "types.Response")
@@ -533,6 +534,13 @@ func ruleC20(c *Ctx) {
 				}
 				c.check(fresh, "C20-R3", fname, "fresh object per attempt", c.P.InstrPos(d.Ev.Instr), ap(d.Obj), "decode target "+ap(d.Obj)+" "+why)
 			}
+			// R6: same normal form as the validated decode. Every validated decode consumes the etree re-serialisation
+			// of a parsed (and, when signed, canonicalised) element; a pre-decoder that hands the raw octets to
+			// encoding/xml sees what etree normalises away: a character reference &#13; (raw: CR, re-serialised: LF),
+			// a repeated attribute (raw: last one wins, etree: one slot per name), an encoding declaration other
+			// than UTF-8 (raw: error, etree: accepted).
+			c.check(last.El != nil, "C20-R6", fname, "decoder input is the normal form the validators decode", c.P.InstrPos(last.Ev.Instr), "xml.Unmarshal(WriteToBytes(doc{root: parsed element}))",
+				"the pre-decoder hands "+ap(last.Data)+" (raw octets) to encoding/xml while full validation decodes the etree re-serialisation of the parsed message: for InResponseTo=\"x&#13;\", for a repeated InResponseTo attribute and for a non-UTF-8 encoding declaration the two report different values / outcomes")
 			// inputs: first attempt raw = base64 decode of the argument, second = inflated
 			raw := "(*encoding/base64.Encoding).DecodeString(encoding/base64.StdEncoding, $encodedResponse)#0"
 			c.check(ap(ds[0].Data) == raw, "C20-R3", fname, "first attempt decodes the base64-decoded input", pos, raw, "first attempt decodes "+ap(ds[0].Data))
